@@ -463,6 +463,7 @@ type scenario struct {
 	queueIdleMs int  // queue mode with the drain: the queue stays empty for this long between phases of sends (longer than the drain's own queue wait)
 	smallRcv    bool // the collector reads through a small socket receive buffer (writes of big frames block and are cut part-way)
 	hugeFrames  bool // frames of 3..7 MiB among the others
+	midFrames bool // big frames of 0.3..1.9 MiB (below the write buffer)
 	// writeTimeoutMs > 0: the client's write timeout (OneWayTcpClient.Timeout) for the scenario
 	writeTimeoutMs int
 	spaced      bool // single sender, one cut: after the cut each send waits until the client's socket is seen dead (see clientSocketAlive)
@@ -505,6 +506,9 @@ func mkPack(r *vlib.Rand, sender, seq int, big bool) (pack.Pack, int64) {
 		if hugeFrames && r.Bool() {
 			n = r.Range(3<<20, 7<<20) // larger than write buffer and socket buffers together
 		}
+		if midFrames {
+			n = r.Range(300<<10, 1900<<10) // fits the write buffer: leaves the client in Flush, not in Write
+		}
 	}
 	if r.Intn(3) == 0 {
 		p := pack.NewLogSinkPack()
@@ -544,7 +548,8 @@ func runScenario(c *vlib.Ctx, sc scenario, r *vlib.Rand, label string) {
 	old := runtime.GOMAXPROCS(sc.gomax)
 	defer runtime.GOMAXPROCS(old)
 	hugeFrames = sc.hugeFrames
-	defer func() { hugeFrames = false }()
+	midFrames = sc.midFrames
+	defer func() { hugeFrames, midFrames = false, false }()
 	col, err := newCollector(sc.schedule)
 	if err != nil {
 		c.Inconclusive(label, "cannot listen on loopback: "+err.Error())
@@ -1174,6 +1179,9 @@ var deadJudged int64
 // hugeFrames is set by the scenario being run (scenarios of one child run one after the other).
 var hugeFrames bool
 
+// midFrames: the big frames of the scenario are 0.3..1.9 MiB (set like hugeFrames).
+var midFrames bool
+
 // frameSizes predicts the sizes of the frames sender 0 will send (same PRNG forks as runScenario).
 func cutPoints(r *vlib.Rand, i int) []cut {
 	// The header is 22 bytes. Small packs are 40..300 bytes. Enumerate: offset inside the first
@@ -1540,6 +1548,14 @@ func main() {
 	// accepted); whatever the client does next, the bytes the collector reads must still parse
 	// into whole frames (a partial frame may only be the last thing a connection carried).
 	c.Cases("fault-stall", scale(6, 80), func(i int, r *vlib.Rand) {
+		if i%2 == 1 {
+			// frames that fit the write buffer: the socket buffers fill up while the collector
+			// stalls and the client's deadline expires inside Flush
+			sch := []cut{{After: r.Range(0, 1<<20), Stall: time.Duration(r.Range(1500, 2500)) * time.Millisecond}}
+			runScenario(c, scenario{kind: "fault-stall", senders: 1, perSender: r.Range(24, 40), gomax: gomaxes[i%4], bigFrames: true, midFrames: true, smallRcv: true,
+				writeTimeoutMs: r.Range(150, 350), schedule: sch}, r, fmt.Sprint("fault-stall#", i))
+			return
+		}
 		sch := []cut{{After: r.Range(1<<20, 8<<20), Stall: time.Duration(r.Range(900, 1500)) * time.Millisecond}}
 		runScenario(c, scenario{kind: "fault-stall", senders: 1, perSender: r.Range(4, 8), gomax: gomaxes[i%4], bigFrames: true, hugeFrames: true, smallRcv: true,
 			writeTimeoutMs: r.Range(150, 350), schedule: sch}, r, fmt.Sprint("fault-stall#", i))
